@@ -306,6 +306,8 @@ def run_check(check: Check, tier: str, replay: Optional[str] = None) -> int:
         pool = list(range(len(cases)))
         rng.shuffle(pool)
         to_judge |= set(pool[:k]) | set(tie_idx) | set(range(min(ncorpus, len(cases))))
+        # the bounded-exhaustive streams of the thorough tier are judged completely
+        to_judge |= {i for i, c in enumerate(cases) if isinstance(c, dict) and c.get("tag") == "grid"}
     jl = sorted(to_judge)
     verdicts = pmap(check, _judge_worker, [(cases[i], impls[i]) for i in jl])
     violations: List[Tuple[int, dict]] = [(i, v) for i, v in zip(jl, verdicts) if v is not None]
